@@ -270,6 +270,10 @@ fn case(rng: &mut Rng, ctx: &mut Ctx, c: Cfg, rep: u64) {
             let raw_tx = raw_tx.clone();
             let pipes = pipes2.clone();
             async move {
+                // a channel that reconnects without end must not take the machine down with it
+                if pipes.lock().unwrap().len() >= 500 {
+                    return Err(std::io::Error::other("verif: the connector was invoked more than 500 times for one call"));
+                }
                 let (a, b, h) = pipe("tls", pcfg, Rng::new(seed), None);
                 pipes.lock().unwrap().push(h);
                 raw_tx.send(b).map_err(|_| std::io::Error::new(std::io::ErrorKind::ConnectionRefused, "listener gone"))?;
@@ -350,6 +354,9 @@ fn case(rng: &mut Rng, ctx: &mut Ctx, c: Cfg, rep: u64) {
         }
     };
     let entered = handler.total_entered.load(std::sync::atomic::Ordering::SeqCst);
+    if pipes.lock().unwrap().len() >= 500 {
+        ctx.violation("reconnect-storm", format!("one call made the channel invoke its connector {} times or more without settling on an answer", pipes.lock().unwrap().len()));
+    }
     if ok != expect_ok {
         if ok {
             ctx.violation_class("served-but-must-fail", why, format!("the call succeeded although it must fail ({} check)", why));
